@@ -27,7 +27,7 @@ const addrA, addrB = "127.0.0.1:1001", "127.0.0.1:1002"
 
 type params struct {
 	listen  string // ok | occupied
-	traffic string // none | out | in | both | retrying (an actor's Tell to an unreachable peer is inside its reconnect back-off, 10 retries = 18 s, when the system is stopped with a 5 s timeout)
+	traffic string // none | out | in | both | sending (an actor is in the middle of a burst of Tells to the live peer when the system is stopped) | retrying (an actor's Tell to an unreachable peer is inside its reconnect back-off, 10 retries = 18 s, when the system is stopped with a 5 s timeout)
 	peer    string // up | stopped | gone
 	op      string // stop | cancel
 }
@@ -84,6 +84,14 @@ func scenario(p params, bounds []int) *vexp.Scenario {
 			}
 			echo(wa, "A")
 			echo(wb, "B")
+			if p.traffic == "sending" {
+				refB, _ := wa.Sys.CreateRef(addrB, "/echo")
+				wa.SpawnRoot(&vsys.Script{Name: "snd", OnMsg: func(a *vsys.Act, c vivid.ActorContext, m vsys.Msg) {
+					for i := 0; i < 3; i++ {
+						c.Tell(refB, &vcodec.CustomMsg{N: 7, T: fmt.Sprintf("burst-%d", i)})
+					}
+				}})
+			}
 			if p.traffic == "retrying" {
 				refB, _ := wa.Sys.CreateRef(addrB, "/echo")
 				wa.SpawnRoot(&vsys.Script{Name: "snd", OnMsg: func(a *vsys.Act, c vivid.ActorContext, m vsys.Msg) {
@@ -115,6 +123,12 @@ func scenario(p params, bounds []int) *vexp.Scenario {
 			if p.traffic == "retrying" {
 				wa.Sys.Tell(wa.Ref("/snd"), vsys.Msg{ID: "go"})
 				settle(500 * time.Millisecond) // the Tell is now somewhere inside its reconnect schedule
+			}
+			if p.traffic == "sending" {
+				// a first burst establishes the connection; the second one races the stop
+				wa.Sys.Tell(wa.Ref("/snd"), vsys.Msg{ID: "go"})
+				settle(2 * time.Second)
+				wa.Sys.Tell(wa.Ref("/snd"), vsys.Msg{ID: "go"})
 			}
 			switch p.peer {
 			case "stopped":
@@ -219,6 +233,10 @@ func build(tier string) []*vexp.Scenario {
 		for _, op := range []string{"stop", "cancel"} {
 			out = append(out, scenario(params{listen, "retrying", "up", op}, []int{0, 1}))
 		}
+	}
+	for _, op := range []string{"stop", "cancel"} {
+		op := op
+		out = append(out, vexp.Split(8, func() *vexp.Scenario { return scenario(params{"ok", "sending", "up", op}, []int{0, 1, 2}) })...)
 	}
 	return out
 }
